@@ -310,4 +310,90 @@ theorem nlAppend_spec (grow : Nat → Nat) (top : Nat → Nat) (n : Nat) (h : Ar
     apply nlAppend1_spec grow top n h s v w sf tz ok
     exact hv (fun sl e => hne sl e)
 
+/-! ### list views never contain nil -/
+
+theorem view_length {h : Arrs} {s : Slice} (w : SWF h s) : (view h s).length = s.len := by
+  simp only [view, List.length_take]
+  rcases w.2 with h0 | ⟨_, h2⟩
+  · have := w.1; omega
+  · have := w.1; omega
+
+theorem sliceAppend_view (grow : Nat → Nat) (h : Arrs) (s : Slice) (v : Handle) (w : SWF h s) :
+    view (sliceAppend grow h s v).1 (sliceAppend grow h s v).2 = view h s ++ [v] := by
+  unfold sliceAppend
+  by_cases hlt : s.len < s.cap
+  · rw [if_pos hlt]
+    rcases w.2 with h0 | ⟨w1, w2⟩
+    · omega
+    show List.take (s.len + 1) (cells (writeCell h s.arr s.len v) s.arr) = List.take s.len (cells h s.arr) ++ [v]
+    simp only [writeCell, cells_modify_same _ _ _ w1]
+    apply List.ext_getElem?
+    intro i
+    simp only [List.getElem?_take, List.getElem?_set, List.getElem?_append]
+    grind
+  · rw [if_neg hlt]
+    have hv := view_length w
+    show List.take (s.len + 1) (cells (h ++ [_]) h.length) = view h s ++ [v]
+    rw [cells_append_eq]
+    rw [List.take_append_of_le_length (by simp [hv])]
+    rw [List.take_of_length_le (by simp [hv])]
+
+theorem nlAppend1_nonnil (grow : Nat → Nat) (h : Arrs) (s : Slice) (v : Handle) (w : SWF h s)
+    (hn : Handle.nil ∉ view h s) (hv : v ≠ Handle.nil) :
+    Handle.nil ∉ view (nlAppend1 grow h s v).1 (nlAppend1 grow h s v).2 := by
+  have happ : Handle.nil ∉ view (sliceAppend grow h s v).1 (sliceAppend grow h s v).2 := by
+    rw [sliceAppend_view grow h s v w]
+    simp only [List.mem_append, List.mem_singleton, not_or]
+    exact ⟨hn, fun e => hv e.symm⟩
+  unfold nlAppend1
+  split
+  · split
+    · exact hn
+    · exact happ
+  · exact happ
+
+theorem nlAppendLoop_nonnil (grow : Nat → Nat) (top : Nat → Nat) (n : Nat) (src : Slice) (hsrc : src.len ≤ top src.arr) :
+    ∀ (cnt k : Nat) (h : Arrs) (s : Slice), SWF h s → Safe top s → (∀ a, h.length ≤ a → top a = 0) → CellsOK n h →
+      Handle.nil ∉ view h s → Handle.nil ∉ view h src → k + cnt ≤ (view h src).length →
+      Handle.nil ∉ view (nlAppendLoop grow src cnt k h s).1 (nlAppendLoop grow src cnt k h s).2 := by
+  intro cnt
+  induction cnt with
+  | zero => intro k h s _ _ _ _ hn _ _; exact hn
+  | succ cnt ih =>
+    intro k h s w sf tz ok hn hns hk
+    simp only [nlAppendLoop]
+    have hklt : k < (view h src).length := by omega
+    have hcv : (view h src)[k]? = some ((cells h src.arr).getD k Handle.nil) := by
+      have h1 : k < src.len ∧ k < (cells h src.arr).length := by
+        simp only [view, List.length_take] at hklt; omega
+      simp only [view, List.getElem?_take, if_pos h1.1, List.getD_eq_getElem?_getD]
+      rw [List.getElem?_eq_getElem h1.2]; rfl
+    have hcne : (cells h src.arr).getD k Handle.nil ≠ Handle.nil := by
+      intro e
+      rw [e] at hcv
+      exact hns (List.mem_of_getElem? hcv)
+    have hc : CellOK n ((cells h src.arr).getD k Handle.nil) := by
+      rw [List.getD_eq_getElem?_getD]
+      cases hk' : (cells h src.arr)[k]? with
+      | none => trivial
+      | some c => exact ok src.arr c (List.mem_of_getElem? hk')
+    have r1 := nlAppend1_spec grow top n h s _ w sf tz ok hc
+    have hv1 : view (nlAppend1 grow h s ((cells h src.arr).getD k Handle.nil)).1 src = view h src := r1.frame.view_eq src hsrc
+    apply ih (k + 1) _ _ r1.swf r1.safe (fun a ha => tz a (by have := r1.frame.1; omega)) r1.ok
+    · exact nlAppend1_nonnil grow h s _ w hn hcne
+    · rw [hv1]; exact hns
+    · rw [hv1]; omega
+
+theorem nlAppend_nonnil (grow : Nat → Nat) (top : Nat → Nat) (n : Nat) (h : Arrs) (s : Slice) (v : Handle)
+    (w : SWF h s) (sf : Safe top s) (tz : ∀ a, h.length ≤ a → top a = 0) (ok : CellsOK n h)
+    (hn : Handle.nil ∉ view h s) (hv : v ≠ Handle.nil)
+    (hsrc : ∀ src, v = Handle.list src → SWF h src ∧ src.len ≤ top src.arr ∧ Handle.nil ∉ view h src) :
+    Handle.nil ∉ view (nlAppend grow h s v).1 (nlAppend grow h s v).2 := by
+  unfold nlAppend
+  split
+  · rename_i src
+    obtain ⟨ws, ht, hns⟩ := hsrc src rfl
+    exact nlAppendLoop_nonnil grow top n src ht src.len 0 h s w sf tz ok hn hns (by rw [view_length ws]; omega)
+  · exact nlAppend1_nonnil grow h s v w hn hv
+
 end PV.Slice
